@@ -87,15 +87,24 @@ type verifC14State struct {
 var verifC14Floats = []float64{1.5, -2.25}
 var verifC14Strs = []string{"abc", " a b ", "12", "2012-02-03 09:18:15"}
 
-func verifC14Init(scope *ReferenceScope) *verifC14State {
+// verifC14CellOnly: expressions from this marker on read table cells only; the variable menus are fixed for them
+const verifC14CellOnlyMarker = "(select -a from t where b = 'x')"
+
+func verifC14Init(scope *ReferenceScope) *verifC14State { return verifC14InitFor(scope, false) }
+
+func verifC14InitFor(scope *ReferenceScope, fixedMenus bool) *verifC14State {
 	st := &verifC14State{scope: scope}
 	// the subject is aliasing and in-place modification, not arithmetic: integer inputs come from a
 	// small menu (concrete arithmetic), table cells stay symbolic
 	ints := []int64{-3, 0, 12, 5}
-	st.i, st.j = ints[verifChoice("i", 3)], ints[2+verifChoice("j", 2)]
-	st.f = verifC14Floats[verifChoice("f", len(verifC14Floats))]
-	st.s = verifC14Strs[verifChoice("s", len(verifC14Strs))]
-	st.t = verifC14Strs[verifChoice("t", 2)]
+	if fixedMenus {
+		st.i, st.j, st.f, st.s, st.t = ints[0], ints[2], verifC14Floats[0], verifC14Strs[0], verifC14Strs[0]
+	} else {
+		st.i, st.j = ints[verifChoice("i", 3)], ints[2+verifChoice("j", 2)]
+		st.f = verifC14Floats[verifChoice("f", len(verifC14Floats))]
+		st.s = verifC14Strs[verifChoice("s", len(verifC14Strs))]
+		st.t = verifC14Strs[verifChoice("t", 2)]
+	}
 	verifVar(scope, "i", value.NewInteger(st.i))
 	verifVar(scope, "j", value.NewInteger(st.j))
 	verifVar(scope, "f", value.NewFloat(st.f))
@@ -151,8 +160,14 @@ func (st *verifC14State) tableUnchanged(tag string, bWant []string) {
 func VerifC14Expressions() {
 	tx := verifNewTx()
 	scope := NewReferenceScope(tx)
-	st := verifC14Init(scope)
 	ei := verifChoice("expr", len(verifC14Src))
+	cellOnly := 0
+	for k, src := range verifC14Src {
+		if src == verifC14CellOnlyMarker {
+			cellOnly = k
+		}
+	}
+	st := verifC14InitFor(scope, cellOnly > 0 && ei >= cellOnly)
 	r1, err1 := Evaluate(verifCtx(), scope, verifC14Exprs[ei])
 	verifC14Churn()
 	st.unchanged("after evaluation")
